@@ -956,6 +956,19 @@ Fixpoint list_eqb2 {A B} (eq : A -> B -> bool) (a : list A) (b : list B) : bool 
 Definition check_api (c : url_table * list api_op * list api_obs) : bool :=
   let '(tbl, ops, outs) := c in list_eqb2 api_out_eqb (api_run (lookup_url tbl) [] ops) outs.
 
+(** UUID constructor obligation, checked on the implementation every run over the structured
+    corner values of the UUID space (Base-UUID aliases, 32-bit aliases, all-zero, all-FF,
+    one-byte neighbours of the base) and random values: [UUID(b)] for 2 / 16 bytes keeps
+    [b] as its packed form with type 16-bit / 128-bit - what [uuid_of_bytes] transcribes and
+    every theorem about the UUID-bearing records (0x02-0x07, 0x14-0x16, 0x21) relies on.
+    case: (bytes handed to UUID(), observed (packed, type) or None when it raised) *)
+Definition check_uuid_bytes (c : bytes * option (bytes * N)) : bool :=
+  match uuid_of_bytes (fst c), snd c with
+  | Ok u, Some (p, t) => bytes_eqb (packed u) p && (uty u =? t)
+  | Raise _, None => true
+  | _, _ => false
+  end.
+
 (** UTF-8 library cases: (bytes, CPython's decode result) and (code point, CPython's encode result) *)
 Definition opt_eqb (a b : option (list N)) : bool :=
   match a, b with Some x, Some y => bytes_eqb x y | None, None => true | _, _ => false end.
